@@ -150,6 +150,17 @@ func checkParse(src string) (msg string, accepted bool) {
 	nameTurn++
 	name := names[nameTurn%len(names)]
 	msg, accepted = checkParseAs(name, src)
+	if msg == "" && nameTurn%3 == 0 && len(src) < 4096 {
+		// the outcome of parsing a text belongs to the text: the same text offered again under the same name, after an
+		// unrelated text went through the parser in between, is accepted or rejected as before, with the same diagnostic
+		first := outcomeOf(name, src)
+		between := awkward[(nameTurn/3)%len(awkward)]
+		_, _, _ = impl.Parse("between.p", between)
+		_ = stderrNew()
+		if again := outcomeOf(name, src); again != first {
+			return fmt.Sprintf("the same text, offered again under the same name after an unrelated parse (of %q), has another outcome: first %q, then %q", between, first, again), accepted
+		}
+	}
 	if msg == "" && !accepted {
 		// the diagnostic of a rejected text names the script it was offered as - also when the very same
 		// text was rejected under another name just before
@@ -158,6 +169,27 @@ func checkParse(src string) (msg string, accepted bool) {
 		}
 	}
 	return msg, accepted
+}
+
+// awkward are the unrelated texts parsed between two parses of one text: valid and rejected ones, every quoting form,
+// unclosed brackets, escapes that only one quoting form knows.
+var awkward = []string{
+	"`a b` = 1", "x = 'a\\`b'", "`q` = \"\\`\"", "s = \"\\\x00\"", "x = '''a\\'''", "x = \"\"\"a\nb\"\"\"", "f(a, g(b", "x = [1, {\"k\": [2, 3", "a[", "if a { f(\"abc) }", "x = 1e", "x = 0x",
+	"`unclosed", "'''never closed", "\"\\u12\"", "x = \"a\\tb \ufffd\"", "# \u0130stanbul\nx = y", "IF a { }", "x = TRUE", "a = 1 @ 2", "x = 1 y = 2 (", "k = a[1:2:3:4]", "else { }", "x = `a` + `b`",
+	"x = 'it\\'s'", "x = \"\\x41\\101\\u00e9\"", "a.b.c[1].d = 2", ".[0][1].name", "for ;; { break }", "x = -9223372036854775808", "\xff\xfe", "x = \"\\", "x = [\n1,\n2\n",
+}
+
+// outcomeOf renders what parsing src under name yields: the diagnostic text, or the number of statements.
+func outcomeOf(name, src string) string {
+	stmts, err, crash := impl.Parse(name, src)
+	_ = stderrNew()
+	switch {
+	case crash != nil:
+		return "panic: " + crash.Value
+	case err != nil:
+		return "rejected: " + err.Error()
+	}
+	return fmt.Sprintf("accepted: %d statements", len(stmts))
 }
 
 // kept holds the last few diagnostics as they were when they were returned: a diagnostic belongs to its caller and
@@ -434,6 +466,8 @@ func genStringish(t *rapid.T) string {
 	body := rapid.SliceOfN(rapid.SampledFrom([]string{
 		"a", "\\", "\\n", "\\x", "\\x4", "\\x41", "\\u", "\\u00e", "\\u00e9", "\\U0001F44", "\\U0001F44D", "\\7", "\\77", "\\101", "\\8",
 		"\"", "'", "`", "\n", "\r", "\x00", "é", "\xff", "\\\"", "\\'", "\\`", "\\q", " ", "#",
+		// characters a decoder may mistake for "undecodable" or whose case mapping changes their length, next to escapes
+		"\ufffd", "\U0001F600", "\u2028", "\ufeff", "\u00a0", "\u0130", "\u212a", "\u1e9e", "\U0010FFFF", "\\t", "\\\\", "\\x00", "\\ufffd", "\\0",
 	}), 0, 8).Draw(t, "body")
 	closeq := q
 	switch rapid.IntRange(0, 5).Draw(t, "close") {
@@ -710,6 +744,31 @@ func TestRepetitionAndSize(t *testing.T) {
 }
 
 // TestMalformedLeaves: a generated valid program in which one leaf token is replaced by a malformed atom.
+// TestEscapesNextToOddCharacters: a quoted literal that holds a backslash escape (which sends the decoder down its slow
+// path) and one character of every odd class - U+FFFD validly encoded, characters outside the BMP, separators, format
+// characters, letters whose case mapping changes their length - before it, after it, and alone: parsing ends.
+func TestEscapesNextToOddCharacters(t *testing.T) {
+	runes := append([]rune{0xFFFD, 0x130, 0x212A, 0x212B, 0x1E9E, 0x2028, 0xFEFF, 0x1F600, 0x10FFFF, 0xE000, 0xD7FF, 0x7F, 0x80}, gen.OddRunes...)
+	escs := []string{"", "\\t", "\\\\", "\\x41", "\\u00e9", "\\101", "\\\"", "\\'", "\\q", "\\"}
+	n := 0
+	for ri, r := range runes {
+		for _, e := range escs {
+			for _, q := range []string{"\"", "'", "\"\"\"", "'''", "`"} {
+				for bi, body := range []string{e + string(r), string(r) + e, "a" + e + "b" + string(r) + "c", string(r) + e + string(r)} {
+					if (ri+bi)%evid.NShards() != evid.Shard() {
+						continue
+					}
+					for _, ctx := range []string{"x = %s", "x = %s\ny = 1", "# %s\nmsg = x"} {
+						one(t, "escape-odd", "escape-next-to-odd-character", fmt.Sprintf(ctx, q+body+q))
+						n++
+					}
+				}
+			}
+		}
+	}
+	evid.Exhaustive("odd character x escape x quoting form x arrangement x context", n)
+}
+
 func TestMalformedLeaves(t *testing.T) {
 	rk.Check(t, "badleaf", 8, evid.Scale(4000, 60000), func(t *rapid.T) {
 		prog := gen.Program(t, gen.ProfileSyntax())
